@@ -35,13 +35,14 @@ COMPILER_REPLAYS = {
     "u_goident": ["replay/c19/predeclared.sh"],
     "u_reserved": ["replay/c19/builtin_name.sh"],
     "u_gensym": ["replay/c19/gensym_capture.sh"],
-    "u_varname": ["replay/c19/shared_variant.sh"],
+    "u_varname": ["replay/c19/shared_variant.sh", "replay/c02/variant_named_as_type.sh"],
     "u_genphase": ["replay/c19/phase_temps.sh"],
     "u_gopkgs": ["replay/c02/unused_import.sh"],
     "u_rttypes": ["replay/c02/undefined_tuple.sh"],
     "u_swbind": ["replay/c02/switch_binding.sh"],
     "u_dynvt": ["replay/c02/dyn_reserved_method.sh"],
     "u_dceblk": ["replay/c02/bare_builtin_stmt.sh"],
+    "u_arrset": ["replay/c02/array_set_let.sh"],
     "u_derive": ["replay/c18/prim_fields.sh"],
     "u_patlit": ["replay/c03/run.sh"],
     "u_annot": ["replay/c03/annotations.sh"],
